@@ -675,6 +675,17 @@ theorem mem_toReplay {log : List (Option (Item α))} {frm : Nat} {it : Item α} 
   simp at hid; subst hid
   exact List.mem_of_mem_drop hx
 
+/-- whatever `After` yields was appended to that stream's log -/
+theorem replayItems_mem {c : Conn α} {sid frm : Nat} {items : List (Item α)} (h : replayItems c sid frm = some items) :
+    ∀ it ∈ items, ∃ log, c.store sid = some log ∧ some it ∈ log := by
+  intro it hit
+  cases hst : c.cfg.hasStore with
+  | true =>
+    obtain ⟨_, log, hlog, _, rfl⟩ := replayItems_some hst h
+    exact ⟨log, hlog, mem_toReplay hit⟩
+  | false =>
+    rw [replayItems_nostore hst h] at hit; cases hit
+
 theorem inv10_get {c : Conn α} (hw : Inv c) (h : Inv10 c) (hdr : Hdr) (ver : Ver) (budget : Option Nat) :
     Inv10 (get c hdr ver budget) := by
   unfold get
@@ -689,18 +700,69 @@ theorem inv10_get {c : Conn α} (hw : Inv c) (h : Inv10 c) (hdr : Hdr) (ver : Ve
         · rename_i items hitems
           refine inv10_getGo hw h _ _ _ _ items ?_
           intro it hit
-          unfold replayItems at hitems
-          split at hitems
-          · split at hitems
-            · cases hitems
-            · cases hlog : c.store hdr.sid with
-              | none => rw [hlog] at hitems; cases hitems
-              | some log =>
-                rw [hlog] at hitems; simp at hitems; subst hitems
-                exact h.routed_log hdr.sid log hlog it (mem_toReplay hit)
-          · cases hitems; cases hit
+          obtain ⟨log, hlog, hmem⟩ := replayItems_mem hitems it hit
+          exact h.routed_log hdr.sid log hlog it hmem
 
-theorem inv10_step {c : Conn α} (hw : Inv c) (h : Inv10 c) (l : Label α) : Inv10 (step c l) := by
+/-! ### WROUTE / WDELIVER -/
+
+/-- every pending write was routed to a stream the routing specification allows -/
+def PendRouted (c : Conn α) : Prop := ∀ pw ∈ c.pendW, Routed c pw.sid ⟨pw.msg, pw.ctx⟩
+
+theorem pendRouted_init (cfg : Cfg) : PendRouted (init cfg : Conn α) := by intro pw h; simp [init] at h
+
+theorem inv10_pendW {c : Conn α} (h : Inv10 c) (l : List (PendW α)) : Inv10 ({ c with pendW := l } : Conn α) :=
+  ⟨h.hist_lt, h.req_hist, h.str_hist, h.pend, h.routed_ex, h.routed_log⟩
+
+theorem inv10_wroute {c : Conn α} (h : Inv10 c) (msg : Msg α) (ctx : Option Nat) (ctxNew : Bool) :
+    Inv10 (wrouteR c msg ctx ctxNew).1 := by
+  unfold wrouteR
+  split
+  · exact h
+  · split
+    · exact inv10_eraseResp h msg
+    · split
+      · exact inv10_eraseResp h msg
+      · exact inv10_pendW (inv10_eraseResp h msg) _
+
+theorem inv10_orphan {c : Conn α} (h : Inv10 c) (pw : PendW α) (hrt : Routed c pw.sid ⟨pw.msg, pw.ctx⟩) :
+    Inv10 (orphanWrite c pw).1 := by
+  have hmono : ∀ {sid : Nat} {it : Item α}, Routed c sid it → Routed (orphanWrite c pw).1 sid it :=
+    fun hr => routed_mono rfl (fun _ _ hv => hv) hr
+  refine ⟨h.hist_lt, h.req_hist, h.str_hist, fun s hs p hp it hit => hmono (h.pend s hs p hp it hit),
+    fun j e he o ho it hit => hmono (h.routed_ex j e he o ho it hit), ?_⟩
+  intro sid log hl it hit
+  simp only [orphanWrite] at hl
+  split at hl
+  · by_cases hk : sid = pw.sid
+    · subst hk
+      simp only [appendLog_same, Option.some.injEq] at hl
+      subst hl
+      rcases List.mem_append.mp hit with hit | hit
+      · cases hc : c.store pw.sid with
+        | none => rw [hc] at hit; simp at hit
+        | some l => rw [hc] at hit; exact hmono (h.routed_log pw.sid l hc it (by simpa using hit))
+      · simp at hit; subst hit; exact hmono hrt
+    · rw [appendLog_other _ _ _ _ hk] at hl; exact hmono (h.routed_log sid log hl it hit)
+  · exact hmono (h.routed_log sid log hl it hit)
+
+theorem inv10_wdeliver {c : Conn α} (hw : Inv c) (h : Inv10 c) (hpr : PendRouted c) (i : Nat) : Inv10 (wdeliverR c i).1 := by
+  unfold wdeliverR
+  split
+  · exact h
+  · rename_i pw hpw
+    have hmem : pw ∈ c.pendW := List.mem_of_getElem? hpw
+    have hrt := hpr pw hmem
+    have hw1 : Inv ({ c with pendW := c.pendW.eraseIdx i } : Conn α) :=
+      inv_pendW hw _ (fun x hx => hw.pend_lt x (mem_eraseIdx hx))
+    have h1 : Inv10 ({ c with pendW := c.pendW.eraseIdx i } : Conn α) := inv10_pendW h _
+    split
+    · rename_i s hs
+      refine inv10_writeTo hw1 h1 (findStream_some hs).1 _ _ _ ?_
+      rw [(findStream_some hs).2]
+      exact routed_mono rfl (fun _ _ hv => hv) hrt
+    · exact inv10_orphan h1 pw (routed_mono rfl (fun _ _ hv => hv) hrt)
+
+theorem inv10_step {c : Conn α} (hw : Inv c) (h : Inv10 c) (hpr : PendRouted c) (l : Label α) : Inv10 (step c l) := by
   unfold step stepR
   cases l with
   | post calls listen ver budget => exact inv10_post hw h _ _ _ _
@@ -712,11 +774,110 @@ theorem inv10_step {c : Conn α} (hw : Inv c) (h : Inv10 c) (l : Label α) : Inv
   | «end» => exact ⟨h.hist_lt, h.req_hist, h.str_hist, fun s hs p hp it hit => routed_mono rfl (fun _ _ hv => hv) (h.pend s hs p hp it hit),
       fun j e he o ho it hit => routed_mono rfl (fun _ _ hv => hv) (h.routed_ex j e he o ho it hit),
       fun sid log hl it hit => routed_mono rfl (fun _ _ hv => hv) (h.routed_log sid log hl it hit)⟩
+  | evict sid n => exact ⟨h.hist_lt, h.req_hist, h.str_hist, fun s hs p hp it hit => routed_mono rfl (fun _ _ hv => hv) (h.pend s hs p hp it hit),
+      fun j e he o ho it hit => routed_mono rfl (fun _ _ hv => hv) (h.routed_ex j e he o ho it hit),
+      fun sid log hl it hit => routed_mono rfl (fun _ _ hv => hv) (h.routed_log sid log hl it hit)⟩
+  | wroute msg ctx ctxNew => exact inv10_wroute h _ _ _
+  | wdeliver i => exact inv10_wdeliver hw h hpr i
+
+/-- the ghost history of registered streams only grows -/
+theorem step_hist_mono {c : Conn α} (h : Inv10 c) (l : Label α) : ∀ sid v, c.hist sid = some v → (step c l).hist sid = some v := by
+  intro sid v hv
+  have same : (step c l).hist = c.hist → (step c l).hist sid = some v := fun he => by rw [he]; exact hv
+  cases l with
+  | post calls listen ver budget =>
+    show (post c calls listen ver budget).hist sid = some v
+    unfold post
+    split
+    · exact hv
+    · split
+      · exact hv
+      · have fh := (postPrimed_frame c (dedup calls) listen ver budget).2.2.2.2.2.2
+        have hne : sid ≠ c.nextSid := fun hh => by have := h.hist_lt sid (by rw [hv]; rfl); omega
+        rw [postNew_eq]
+        split
+        · simp [cut, finish, fh, hne, hv]
+        · rw [fh]; simp [hne, hv]
+  | write msg ctx ctxNew =>
+    apply same
+    show (writeR c msg ctx ctxNew).1.hist = c.hist
+    unfold writeR
+    split
+    · rfl
+    · split
+      · simp
+      · split
+        · simp
+        · simp [writeTo]
+  | cut ex => exact hv
+  | wfail ex => exact hv
+  | get hdr ver budget =>
+    apply same
+    show (get c hdr ver budget).hist = c.hist
+    unfold get
+    split
+    · rfl
+    · split
+      · rfl
+      · split
+        · rfl
+        · split
+          · rfl
+          · rename_i items _
+            have hr := (replayLoop_frame (getOpen c hdr.sid hdr.from budget) c.exs.length hdr.sid hdr.from items).2.2.2.2.1
+            have hg := (getOpen_frame c hdr.sid hdr.from budget).2.2.2.2.1
+            simp only [getGo]
+            split
+            · split
+              · simp [finish, hr, hg]
+              · split
+                · simp [finish, hr, hg]
+                · simp only [attach]; split <;> simp [cut, finish, hr, hg]
+            · simp [finish, hr, hg]
+  | sclose req retry =>
+    apply same
+    show (sclose c req retry).hist = c.hist
+    unfold sclose
+    split
+    · rfl
+    · split
+      · rfl
+      · split
+        · split <;> rfl
+        · rfl
+  | «end» => exact hv
+  | evict sid' n => exact hv
+  | wroute msg ctx ctxNew =>
+    apply same
+    show (wrouteR c msg ctx ctxNew).1.hist = c.hist
+    unfold wrouteR
+    split
+    · rfl
+    · split
+      · simp
+      · split <;> simp
+  | wdeliver i =>
+    apply same
+    show (wdeliverR c i).1.hist = c.hist
+    unfold wdeliverR
+    split
+    · rfl
+    · split
+      · simp [writeTo]
+      · simp [orphanWrite]
+
+theorem pendRouted_step {c : Conn α} (h : Inv10 c) (hpr : PendRouted c) (l : Label α) : PendRouted (step c l) := by
+  intro pw hp
+  have hmono : ∀ {sid : Nat} {it : Item α}, Routed c sid it → Routed (step c l) sid it :=
+    fun hr => routed_mono (step_cfg c l) (step_hist_mono h l) hr
+  rcases step_pendW c l pw hp with h0 | ⟨msg, ctx, ctxNew, s, rfl, hs, rfl⟩
+  · exact hmono (hpr pw h0)
+  · exact hmono (route_routed h hs)
 
 theorem inv10_run (cfg : Cfg) (ls : List (Label α)) : Inv10 (run (init cfg) ls) := by
-  suffices ∀ c : Conn α, Inv c → Inv10 c → Inv10 (run c ls) from this _ (inv_init cfg) (inv10_init cfg)
+  suffices ∀ c : Conn α, Inv c → Inv10 c → PendRouted c → Inv10 (run c ls) from this _ (inv_init cfg) (inv10_init cfg) (pendRouted_init cfg)
   induction ls with
-  | nil => intro c _ h; exact h
-  | cons l t ih => intro c hw h; exact ih (step c l) (inv_step hw l) (inv10_step hw h l)
+  | nil => intro c _ h _; exact h
+  | cons l t ih => intro c hw h hpr; exact ih (step c l) (inv_step hw l) (inv10_step hw h hpr l) (pendRouted_step h hpr l)
 
 end Resume
